@@ -103,6 +103,18 @@ Proof.
   inversion H; subst. cbn [concat length]. rewrite app_length, IH; auto.
 Qed.
 
+(* C11_int_width: an integer array decoded with the width it was encoded with comes back *)
+Lemma ints_roundtrip w sg (l : list Z) : Forall (in_range w sg) l ->
+  map (dec_int w sg) (chunk w (length l) (concat (map (enc_int w) l))) = l.
+Proof.
+  intro H. rewrite <- (map_length (enc_int w) l).
+  rewrite chunk_concat.
+  - rewrite map_map. rewrite map_ext_in with (g := fun x => x); [apply map_id|].
+    intros x Hx. apply dec_enc_int. rewrite Forall_forall in H. auto.
+  - apply Forall_forall. intros r Hr. apply in_map_iff in Hr. destruct Hr as (x & <- & _).
+    apply enc_int_length.
+Qed.
+
 (* ================= gather / scatter ================= *)
 Fixpoint canon {A} (m : list bool) (d : A) (l : list A) : list A :=
   match m, l with
@@ -139,3 +151,519 @@ Proof.
   induction m as [|b m IH]; intros [|x l] H E; try discriminate; [reflexivity|].
   simpl in E. destruct b; [discriminate|]. simpl. f_equal. apply IH; auto.
 Qed.
+
+(* ================= row-major enumeration: the list form of an array ================= *)
+Lemma size_pos_of_lt s k : k < size s -> 0 < size s.
+Proof. lia. Qed.
+
+Lemma ravel_nth_all_mi s : forall k, k < size s -> ravel s (nth k (all_mi s) []) = k.
+Proof.
+  induction s as [|n s IH]; intros k Hk.
+  - simpl in *. assert (k = 0) by lia. subst. reflexivity.
+  - cbn [size] in Hk. cbn [all_mi].
+    assert (Hc : 0 < size s) by (destruct (size s); lia).
+    pose proof (Nat.div_mod k (size s) ltac:(lia)) as Hdm.
+    pose proof (Nat.mod_upper_bound k (size s) ltac:(lia)) as Hr.
+    assert (Hq : k / size s < n).
+    { apply Nat.div_lt_upper_bound; lia. }
+    rewrite Hdm at 1. rewrite (Nat.mul_comm (size s)).
+    rewrite nth_flat_map_const with (c := size s) (da := 0).
+    + rewrite seq_nth by lia. cbn [plus].
+      rewrite nth_indep with (d' := (k / size s) :: []) by (rewrite map_length, all_mi_length; lia).
+      rewrite (map_nth (cons (k / size s)) (all_mi s) [] (k mod size s)).
+      cbn [ravel]. rewrite IH by lia. lia.
+    + intro x. rewrite map_length. apply all_mi_length.
+    + lia.
+    + rewrite seq_length. lia.
+Qed.
+
+(* a list of the right length is the list form of its own index function *)
+Lemma list_as_map s (l : list bool) d : length l = size s ->
+  map (fun i => nth (ravel s i) l d) (all_mi s) = l.
+Proof.
+  intro H. apply nth_ext with (d := d) (d' := d).
+  - rewrite map_length, all_mi_length. auto.
+  - intros k Hk. rewrite map_length, all_mi_length in Hk.
+    rewrite nth_indep with (d' := (fun i => nth (ravel s i) l d) [])
+      by (rewrite map_length, all_mi_length; lia).
+    rewrite (map_nth (fun i => nth (ravel s i) l d) (all_mi s) [] k).
+    rewrite ravel_nth_all_mi by lia. reflexivity.
+Qed.
+
+Lemma inb_length s : forall i, inb s i = true -> length i = length s.
+Proof.
+  induction s as [|n s IH]; intros [|k i] H; simpl in *; try discriminate; auto.
+  apply andb_true_iff in H. destruct H as [_ H]. f_equal. auto.
+Qed.
+
+Lemma inb_nth s : forall i a, inb s i = true -> a < length s -> nth a i 0 < nth a s 0.
+Proof.
+  induction s as [|n s IH]; intros [|k i] a H Ha; simpl in *; try discriminate; try lia.
+  apply andb_true_iff in H. destruct H as [H1 H2]. apply Nat.ltb_lt in H1.
+  destruct a as [|a]; auto. apply IH; auto. lia.
+Qed.
+
+(* ================= corners ================= *)
+Lemma find_first_le (p : nat -> bool) : forall n start k,
+  start <= k < start + n -> p k = true ->
+  exists x, find p (seq start n) = Some x /\ x <= k /\ p x = true.
+Proof.
+  induction n as [|n IH]; intros start k Hk Hp; [lia|].
+  cbn [seq find]. destruct (p start) eqn:E.
+  - exists start. repeat split; auto. lia.
+  - assert (k <> start) by (intro; subst; congruence).
+    destruct (IH (S start) k ltac:(lia) Hp) as (x & Hx & Hle & Hpx). exists x. auto.
+Qed.
+
+Lemma find_last_ge (p : nat -> bool) : forall n k, k < n -> p k = true ->
+  exists x, find p (rev (seq 0 n)) = Some x /\ k <= x /\ x < n /\ p x = true.
+Proof.
+  induction n as [|n IH]; intros k Hk Hp; [lia|].
+  rewrite seq_S, rev_app_distr. cbn [rev app plus find]. destruct (p n) eqn:E.
+  - exists n. repeat split; auto; lia.
+  - assert (k <> n) by (intro; subst; congruence).
+    destruct (IH k ltac:(lia) Hp) as (x & Hx & Hle & Hlt & Hpx). exists x. repeat split; auto.
+Qed.
+
+Lemma occupied_intro s m a i : inb s i = true -> m i = false ->
+  occupied s m a (nth a i 0) = true.
+Proof.
+  intros Hi Hm. unfold occupied. apply existsb_exists. exists i. split.
+  - apply in_all_mi; auto.
+  - rewrite Hm, Nat.eqb_refl. reflexivity.
+Qed.
+
+Lemma occupied_elim s m a k : occupied s m a k = true ->
+  exists i, inb s i = true /\ m i = false /\ nth a i 0 = k.
+Proof.
+  unfold occupied. intro H. apply existsb_exists in H. destruct H as (i & Hi & H).
+  apply andb_true_iff in H. destruct H as [H1 H2].
+  exists i. repeat split.
+  - apply in_all_mi; auto.
+  - destruct (m i); auto; discriminate.
+  - apply Nat.eqb_eq; auto.
+Qed.
+
+Lemma nth_map_seq (f : nat -> nat) n a : a < n -> nth a (map f (seq 0 n)) 0 = f a.
+Proof.
+  intro H. rewrite nth_indep with (d' := f 0) by (rewrite map_length, seq_length; auto).
+  rewrite map_nth, seq_nth; auto.
+Qed.
+
+Lemma corners_length s m :
+  length (fst (find_corners s m)) = length s /\ length (snd (find_corners s m)) = length s.
+Proof. unfold find_corners; cbn [fst snd]. rewrite !map_length, !seq_length. auto. Qed.
+
+(* every unmasked element lies inside the corners *)
+Lemma corners_bound s m i a : inb s i = true -> m i = false -> a < length s ->
+  nth a (fst (find_corners s m)) 0 <= nth a i 0 < nth a (snd (find_corners s m)) 0.
+Proof.
+  intros Hi Hm Ha. unfold find_corners; cbn [fst snd]. rewrite !nth_map_seq by auto.
+  pose proof (occupied_intro s m a i Hi Hm) as Ho.
+  pose proof (inb_nth s i a Hi Ha) as Hlt.
+  unfold first_occ, last_occ.
+  destruct (find_first_le (occupied s m a) (nth a s 0) 0 (nth a i 0) ltac:(lia) Ho) as (x & -> & Hx & _).
+  destruct (find_last_ge (occupied s m a) (nth a s 0) (nth a i 0) Hlt Ho) as (y & -> & Hy & _ & _).
+  lia.
+Qed.
+
+(* the corners are tight: each face of the box holds an unmasked element *)
+Lemma corners_tight s m i0 a : inb s i0 = true -> m i0 = false -> a < length s ->
+  (exists i, inb s i = true /\ m i = false /\ nth a i 0 = nth a (fst (find_corners s m)) 0) /\
+  (exists i, inb s i = true /\ m i = false /\ S (nth a i 0) = nth a (snd (find_corners s m)) 0).
+Proof.
+  intros Hi Hm Ha. unfold find_corners; cbn [fst snd]. rewrite !nth_map_seq by auto.
+  pose proof (occupied_intro s m a i0 Hi Hm) as Ho.
+  pose proof (inb_nth s i0 a Hi Ha) as Hlt.
+  unfold first_occ, last_occ.
+  destruct (find_first_le (occupied s m a) (nth a s 0) 0 (nth a i0 0) ltac:(lia) Ho) as (x & -> & _ & Hpx).
+  destruct (find_last_ge (occupied s m a) (nth a s 0) (nth a i0 0) Hlt Ho) as (y & -> & _ & _ & Hpy).
+  split.
+  - destruct (occupied_elim _ _ _ _ Hpx) as (i & H1 & H2 & H3). exists i. auto.
+  - destruct (occupied_elim _ _ _ _ Hpy) as (i & H1 & H2 & H3). exists i. rewrite H3. auto.
+Qed.
+
+Lemma inbox_nth : forall i lo hi, length lo = length i -> length hi = length i ->
+  (forall a, a < length i -> nth a lo 0 <= nth a i 0 < nth a hi 0) -> inbox lo hi i = true.
+Proof.
+  induction i as [|k i IH]; intros [|l lo] [|h hi] Hl Hh H; try discriminate; [reflexivity|].
+  cbn [inbox]. pose proof (H 0 ltac:(simpl; lia)) as H0. cbn [nth] in H0.
+  destruct (Nat.leb_spec l k); [|lia]. destruct (Nat.ltb_spec k h); [|lia]. cbn [andb].
+  apply IH; simpl in *; try lia.
+  intros a Ha. apply (H (S a)). lia.
+Qed.
+
+Lemma inbox_inb : forall i lo hi, inbox lo hi i = true ->
+  inb (sub_mi hi lo) (sub_mi i lo) = true /\ add_mi (sub_mi i lo) lo = i.
+Proof.
+  induction i as [|k i IH]; intros [|l lo] [|h hi] H; simpl in *; try discriminate; auto.
+  apply andb_true_iff in H. destruct H as [H H3]. apply andb_true_iff in H. destruct H as [H1 H2].
+  apply Nat.leb_le in H1. apply Nat.ltb_lt in H2.
+  destruct (IH _ _ H3) as [Ha Hb]. rewrite Ha, Hb. split.
+  - destruct (Nat.ltb_spec (k - l) (h - l)); auto. lia.
+  - f_equal. lia.
+Qed.
+
+Lemma unmasked_inbox s m i : inb s i = true -> m i = false ->
+  inbox (fst (find_corners s m)) (snd (find_corners s m)) i = true.
+Proof.
+  intros Hi Hm. pose proof (corners_length s m) as [H1 H2]. pose proof (inb_length s i Hi) as Hl.
+  apply inbox_nth; try congruence.
+  intros a Ha. apply corners_bound; auto. congruence.
+Qed.
+
+Lemma crop_length m lo hi : length (crop m lo hi) = size (sub_mi hi lo).
+Proof. unfold crop. rewrite map_length. apply all_mi_length. Qed.
+
+(* crop and uncrop are inverse on masks that are all True outside the box; with the
+   corners of _find_corners that is every mask *)
+Lemma uncrop_crop s (l : list bool) : length l = size s ->
+  let m := mfun s l in
+  let lo := fst (find_corners s m) in
+  let hi := snd (find_corners s m) in
+  uncrop s lo hi (sub_mi hi lo) (crop m lo hi) = l.
+Proof.
+  intros Hlen m lo hi. unfold uncrop.
+  rewrite <- (list_as_map s l false Hlen) at 1.
+  apply map_ext_in. intros i Hi. apply in_all_mi in Hi.
+  destruct (inbox lo hi i) eqn:E.
+  - destruct (inbox_inb _ _ _ E) as [Ha Hb].
+    unfold crop.
+    pose proof (nth_to_list (mkarr (sub_mi hi lo) (fun j => m (add_mi j lo))) (sub_mi i lo) true Ha) as Hn.
+    unfold to_list in Hn. cbn [ashape aget] in Hn.
+    transitivity (m (add_mi (sub_mi i lo) lo)); [exact Hn|]. rewrite Hb. reflexivity.
+  - fold (m i). destruct (m i) eqn:Em; auto.
+    pose proof (unmasked_inbox s m i Hi Em) as Hc. fold lo hi in Hc. congruence.
+Qed.
+
+(* ================= the closed form of the round trip ================= *)
+Definition pat_ok (z : Z) : Prop := (0 <= z < 18446744073709551616)%Z.
+Definition byte_ok (z : Z) : Prop := (0 <= z < 256)%Z.
+Definition val_ok (k : vkind) (z : Z) : Prop :=
+  match k with
+  | KFloat => pat_ok z
+  | KInt w sg => in_range w sg z
+  | KBool => z = 0%Z \/ z = 1%Z
+  end.
+Definition row_ok (k : vkind) (isz : nat) (r : list Z) : Prop := length r = isz /\ Forall (val_ok k) r.
+
+Definition wf0 (q : q0) : Prop :=
+  Forall (row_ok (qkind q) (isz_of (qnumer q) (qdenom q))) (qvals q) /\
+  match qmask q with
+  | LA l => length l = size (qshape q) /\ length (qvals q) = size (qshape q) /\ qscalar q = false
+  | LS _ => True
+  end.
+
+Definition restored_mask (q : q0) : mrepL :=
+  if qscalar q then qmask q
+  else if all_masked (qmask q) then LS true
+  else if any_masked (qmask q) then qmask q else LS false.
+Definition restored_vals (q : q0) : list (list Z) :=
+  if qscalar q then qvals q
+  else if all_masked (qmask q) then repeat (qdef q) (size (qshape q))
+  else match restored_mask q with LS _ => qvals q | LA l => canon l (qdef q) (qvals q) end.
+Definition restore0 (q : q0) : q0 :=
+  mkq0 (qcls q) (qshape q) (qnumer q) (qdenom q) (qkind q) (qscalar q) (restored_vals q)
+       (restored_mask q) (qdef q) (qunits q) (qro q) true.
+(* the mask through which __getstate__ selected the values (None: no selection) *)
+Definition sel_mask (q : q0) : option (list bool) :=
+  if qscalar q then None else if all_masked (qmask q) then None else antimask_of (restored_mask q).
+
+Lemma sel_mask_eq cd q : snd (getstate0 cd q) = sel_mask q.
+Proof.
+  unfold getstate0, sel_mask, restored_mask.
+  destruct (qscalar q); [reflexivity|]. destruct (all_masked (qmask q)); [reflexivity|].
+  destruct (any_masked (qmask q)); [destruct (qmask q)|]; reflexivity.
+Qed.
+
+Lemma Forall_concat_rows {A} (P : A -> Prop) w (l : list (list A)) :
+  Forall (fun r => length r = w /\ Forall P r) l -> Forall P (concat l) /\ Forall (fun r => length r = w) l.
+Proof.
+  induction l as [|r l IH]; intro H; [split; constructor|].
+  inversion H as [|? ? [Hr1 Hr2] Hl]; subst. destruct (IH Hl) as [H1 H2]. split.
+  - cbn [concat]. apply Forall_app. auto.
+  - constructor; auto.
+Qed.
+
+Lemma le_bytes_range w : forall v, Forall byte_ok (le_bytes w v).
+Proof.
+  induction w as [|w IH]; intro v; cbn [le_bytes]; constructor; auto.
+  unfold byte_ok. apply Z.mod_pos_bound. lia.
+Qed.
+
+Lemma Forall_concat_map {A B} (P : B -> Prop) (f : A -> list B) l :
+  (forall x, Forall P (f x)) -> Forall P (concat (map f l)).
+Proof. intro H. induction l as [|x l IH]; cbn [map concat]; [constructor|apply Forall_app; auto]. Qed.
+
+Section Codec.
+  Variable cd : codec.
+  (* the external compressors: bz2 on byte strings, fpzip at full precision on arrays of doubles *)
+  Hypothesis Hbz2 : forall b, Forall byte_ok b -> bz2d cd (bz2c cd b) = b.
+  Hypothesis Hfpz : forall l, Forall pat_ok l -> fpzd cd (fpzc cd l) = l.
+
+  (* C11_mask_codec: corners + crop + packbits + bz2 round-trips every mask array *)
+  Lemma mask_codec s l : length l = size s ->
+    dec_mask cd s (fst (enc_mask cd s l)) (snd (enc_mask cd s l)) = DArr s l.
+  Proof.
+    intro Hlen. unfold enc_mask.
+    destruct (shape_eqb (sub_mi (snd (find_corners s (mfun s l))) (fst (find_corners s (mfun s l)))) s) eqn:E.
+    - cbn [fst snd]. unfold dec_mask. cbn [rev app fold_left dec_mask_step].
+      rewrite Hbz2 by (apply packbits_range). rewrite <- Hlen, unpack_pack. reflexivity.
+    - cbn [fst snd]. unfold dec_mask. cbn [rev app fold_left dec_mask_step].
+      rewrite Hbz2 by (apply packbits_range). rewrite <- (crop_length (mfun s l)), unpack_pack.
+      rewrite (uncrop_crop s l Hlen). reflexivity.
+  Qed.
+
+  Lemma vals_codec k fz isz nfull def am rows : Forall (row_ok k isz) rows ->
+    fold_left (dec_vals_step cd isz nfull def am) (rev (snd (enc_vals cd k fz rows)))
+              (DRaw (fst (enc_vals cd k fz rows))) = DRows rows.
+  Proof.
+    intro H. destruct (Forall_concat_rows _ _ _ H) as [Hv Hl].
+    pose proof (concat_length_const _ _ Hl) as Hcl.
+    unfold enc_vals. destruct k as [|w sg|].
+    - destruct ((length (concat rows) <=? CUTOFF) || negb fz); cbn [fst snd rev app fold_left dec_vals_step].
+      + reflexivity.
+      + rewrite Hfpz by exact Hv. rewrite chunk_concat; auto.
+    - cbn [fst snd rev app fold_left dec_vals_step].
+      rewrite Hbz2 by (apply Forall_concat_map; intro x; apply le_bytes_range).
+      rewrite <- Hcl. rewrite <- (map_length (enc_int w) (concat rows)).
+      rewrite chunk_concat by (apply Forall_forall; intros r Hr; apply in_map_iff in Hr;
+                               destruct Hr as (x & <- & _); apply enc_int_length).
+      rewrite map_map. rewrite map_ext_in with (g := fun x => x).
+      * rewrite map_id. rewrite chunk_concat; auto.
+      * intros x Hx. apply dec_enc_int. rewrite Forall_forall in Hv. apply (Hv x Hx).
+    - cbn [fst snd rev app fold_left dec_vals_step].
+      rewrite Hbz2 by (apply packbits_range).
+      rewrite <- (map_length nonzero (concat rows)). rewrite unpack_pack.
+      rewrite map_map. rewrite map_ext_in with (g := fun x => x).
+      * rewrite map_id. rewrite chunk_concat; auto.
+      * intros x Hx. rewrite Forall_forall in Hv. destruct (Hv x Hx) as [-> | ->]; reflexivity.
+  Qed.
+
+  Lemma forallb_id_repeat : forall l, forallb (fun b : bool => b) l = true -> l = repeat true (length l).
+  Proof.
+    induction l as [|b l IH]; intro H; [reflexivity|]. simpl in H.
+    apply andb_true_iff in H. destruct H as [-> H]. cbn [length repeat]. f_equal. auto.
+  Qed.
+
+  (* __setstate__ after __getstate__, one object without derivatives *)
+  Lemma setget0 q : wf0 q -> setstate0 cd (fst (getstate0 cd q)) = restore0 q.
+  Proof.
+    intros [Hrows Hm]. unfold getstate0, restore0, restored_vals, restored_mask.
+    destruct (qscalar q) eqn:Es.
+    { cbn [fst]. unfold setstate0, base_state; cbn. reflexivity. }
+    destruct (all_masked (qmask q)) eqn:Ea.
+    { cbn [fst]. unfold setstate0, base_state; cbn. reflexivity. }
+    destruct (any_masked (qmask q)) eqn:Ey.
+    - destruct (qmask q) as [b|l] eqn:Eq.
+      + cbn [fst]. unfold setstate0, base_state.
+        cbn [pcls pshape pnumer pdenom pkind pdef punits pro pmaskv pvalsv pmenc pvenc].
+        unfold dec_mask. cbn [rev fold_left mask_of_dmask antimask_of].
+        rewrite vals_codec by exact Hrows. cbn [rows_of_dstate].
+        destruct (enc_vals cd (qkind q) (qfpz q) (qvals q)) as [pv ve] eqn:Ee.
+        assert (Hs : is_same (fst (pv, ve)) = false).
+        { rewrite <- Ee. unfold enc_vals. destruct (qkind q); try reflexivity.
+          destruct ((length (concat (qvals q)) <=? CUTOFF) || negb (qfpz q)); reflexivity. }
+        cbn [fst] in *. rewrite Hs. reflexivity.
+      + destruct Hm as (Hl & Hv & _). cbn [fst]. unfold setstate0, base_state.
+        cbn [pcls pshape pnumer pdenom pkind pdef punits pro pmaskv pvalsv pmenc pvenc].
+        rewrite mask_codec by exact Hl. cbn [mask_of_dmask antimask_of].
+        cbn [rev]. rewrite fold_left_app.
+        rewrite vals_codec by (apply gather_Forall; exact Hrows).
+        cbn [fold_left dec_vals_step rows_of_dstate].
+        rewrite scatter_gather by congruence.
+        assert (Hs : is_same (fst (enc_vals cd (qkind q) (qfpz q) (gather l (qvals q)))) = false).
+        { unfold enc_vals. destruct (qkind q); try reflexivity.
+          destruct ((length (concat (gather l (qvals q))) <=? CUTOFF) || negb (qfpz q)); reflexivity. }
+        rewrite Hs. reflexivity.
+    - cbn [fst]. unfold setstate0, base_state.
+      cbn [pcls pshape pnumer pdenom pkind pdef punits pro pmaskv pvalsv pmenc pvenc].
+      unfold dec_mask. cbn [rev fold_left mask_of_dmask antimask_of].
+      rewrite vals_codec by exact Hrows. cbn [rows_of_dstate].
+      assert (Hs : is_same (fst (enc_vals cd (qkind q) (qfpz q) (qvals q))) = false).
+      { unfold enc_vals. destruct (qkind q); try reflexivity.
+        destruct ((length (concat (qvals q)) <=? CUTOFF) || negb (qfpz q)); reflexivity. }
+      rewrite Hs. reflexivity.
+  Qed.
+
+  (* ---- derivatives ---- *)
+  Definition restore_d (c d : q0) : q0 :=
+    match sel_mask c with
+    | None => with_ro (restore0 d) (qro c || qro d)
+    | Some l => mkq0 (qcls d) (qshape d) (qnumer d) (qdenom d) (qkind d) false
+                     (canon l (qdef d) (qvals d)) (LA l) (qdef d) (qunits d) (qro c || qro d) true
+    end.
+  Definition restore (q : qube) : qube :=
+    mkqube (restore0 (core q)) (map (fun kd => (fst kd, restore_d (core q) (snd kd))) (derivs q)).
+
+  Definition wf (q : qube) : Prop :=
+    wf0 (core q) /\ (qscalar (core q) = true -> exists b, qmask (core q) = LS b) /\
+    Forall (fun kd => wf0 (snd kd) /\ qshape (snd kd) = qshape (core q) /\
+                      length (qvals (snd kd)) = size (qshape (core q))) (derivs q).
+
+  Lemma antimask_restored c : wf0 c -> (qscalar c = true -> exists b, qmask c = LS b) ->
+    antimask_of (qmask (restore0 c)) = sel_mask c.
+  Proof.
+    intros _ Hs. unfold restore0, sel_mask, restored_mask; cbn [qmask].
+    destruct (qscalar c); [destruct (Hs eq_refl) as [b ->]; reflexivity|].
+    destruct (all_masked (qmask c)); reflexivity.
+  Qed.
+
+  Lemma sel_mask_LA c l : wf0 c -> sel_mask c = Some l ->
+    qmask c = LA l /\ length l = size (qshape c) /\ qscalar c = false /\ all_masked (qmask c) = false.
+  Proof.
+    intros [_ Hm]. unfold sel_mask, restored_mask. destruct (qscalar c) eqn:Es; [discriminate|].
+    destruct (all_masked (qmask c)) eqn:Ea; [discriminate|].
+    destruct (any_masked (qmask c)); [|discriminate].
+    destruct (qmask c) as [b|l'] eqn:E; [discriminate|]. cbn [antimask_of]. intro H; inversion H; subst.
+    destruct Hm as (H1 & _ & _). auto.
+  Qed.
+
+  Lemma setget_d c d : wf0 c -> (qscalar c = true -> exists b, qmask c = LS b) -> wf0 d ->
+    length (qvals d) = size (qshape c) ->
+    let d0 := match snd (getstate0 cd c) with
+              | None => d
+              | Some l => with_vals_mask d (gather l (qvals d)) (LS false)
+              end in
+    let d1 := setstate0 cd (fst (getstate0 cd d0)) in
+    let d2 := match antimask_of (qmask (restore0 c)) with
+              | Some l => with_vals_mask d1 (scatter l (qdef d1) (qvals d1)) (LA l)
+              | None => d1
+              end in
+    with_ro d2 (qro (restore0 c) || qro d2) = restore_d c d.
+  Proof.
+    intros Hc Hsc Hd Hlen. cbv zeta. rewrite sel_mask_eq, antimask_restored by auto.
+    unfold restore_d. destruct (sel_mask c) as [l|] eqn:El.
+    - destruct (sel_mask_LA c l Hc El) as (_ & Hl & _ & _).
+      assert (Hw : wf0 (with_vals_mask d (gather l (qvals d)) (LS false))).
+      { split; cbn; auto. apply gather_Forall. apply Hd. }
+      rewrite setget0 by exact Hw.
+      unfold restore0, restored_vals, restored_mask, with_vals_mask, with_ro; cbn.
+      rewrite scatter_gather by congruence. reflexivity.
+    - rewrite setget0 by exact Hd. unfold restore0, with_ro; cbn. reflexivity.
+  Qed.
+
+  Theorem setget q : wf q -> setstate cd (getstate cd q) = restore q.
+  Proof.
+    intros (Hc & Hsc & Hd). unfold setstate, getstate, restore. cbn [pcore pderivs].
+    rewrite setget0 by exact Hc. f_equal.
+    rewrite map_map. apply map_ext_in. intros [key d] Hin. cbn [fst snd]. f_equal.
+    rewrite Forall_forall in Hd. destruct (Hd _ Hin) as (Hwd & _ & Hlen). cbn [snd] in *.
+    apply (setget_d (core q) d Hc Hsc Hwd Hlen).
+  Qed.
+End Codec.
+
+(* ================= what the closed form says (the property) ================= *)
+Definition mask_at (q : q0) (i : nat) : bool := nth i (expand_mask (size (qshape q)) (qmask q)) false.
+
+Lemma nth_repeat_lt {A} (a d : A) : forall n i, i < n -> nth i (repeat a n) d = a.
+Proof. induction n as [|n IH]; intros [|i] H; simpl; auto; try lia. apply IH. lia. Qed.
+
+Lemma all_masked_at q i : wf0 q -> i < size (qshape q) -> all_masked (qmask q) = true -> mask_at q i = true.
+Proof.
+  intros [_ Hm] Hi Ha. unfold mask_at. destruct (qmask q) as [b|l]; cbn in *.
+  - subst. apply nth_repeat_lt; auto.
+  - destruct Hm as (Hl & _). rewrite forallb_forall in Ha. apply Ha. apply nth_In. lia.
+Qed.
+
+Lemma none_masked_at q i : wf0 q -> i < size (qshape q) -> any_masked (qmask q) = false -> mask_at q i = false.
+Proof.
+  intros [_ Hm] Hi Ha. unfold mask_at. destruct (qmask q) as [b|l]; cbn in *.
+  - subst. apply nth_repeat_lt; auto.
+  - destruct Hm as (Hl & _). destruct (nth i l false) eqn:E; auto.
+    assert (existsb (fun b => b) l = true); [|congruence].
+    apply existsb_exists. exists true. split; auto. rewrite <- E. apply nth_In. lia.
+Qed.
+
+Lemma mask_restored q i : wf0 q -> i < size (qshape q) -> mask_at (restore0 q) i = mask_at q i.
+Proof.
+  intros Hw Hi. unfold mask_at at 1. unfold restore0, restored_mask; cbn [qshape qmask].
+  destruct (qscalar q); [reflexivity|].
+  destruct (all_masked (qmask q)) eqn:Ea.
+  - cbn. rewrite nth_repeat_lt by auto. symmetry. apply all_masked_at; auto.
+  - destruct (any_masked (qmask q)) eqn:Ey; [reflexivity|].
+    cbn. rewrite nth_repeat_lt by auto. symmetry. apply none_masked_at; auto.
+Qed.
+
+Lemma vals_restored_unmasked q i : wf0 q -> i < size (qshape q) -> mask_at q i = false ->
+  nth i (restored_vals q) [] = nth i (qvals q) [].
+Proof.
+  intros Hw Hi Hm. unfold restored_vals, restored_mask. destruct (qscalar q); [reflexivity|].
+  destruct (all_masked (qmask q)) eqn:Ea.
+  { rewrite all_masked_at in Hm by auto. discriminate. }
+  destruct (any_masked (qmask q)); [|reflexivity].
+  destruct (qmask q) as [b|l] eqn:E; [reflexivity|].
+  destruct Hw as [_ Hq]. rewrite E in Hq. destruct Hq as (Hl & Hv & _).
+  rewrite nth_canon by lia. unfold mask_at in Hm. rewrite E in Hm. cbn in Hm. rewrite Hm. reflexivity.
+Qed.
+
+Lemma vals_restored_masked q i : wf0 q -> qscalar q = false -> i < size (qshape q) -> mask_at q i = true ->
+  nth i (restored_vals q) [] = qdef q.
+Proof.
+  intros Hw Hs Hi Hm. unfold restored_vals, restored_mask. rewrite Hs.
+  destruct (all_masked (qmask q)) eqn:Ea.
+  { apply nth_repeat_lt; auto. }
+  destruct (any_masked (qmask q)) eqn:Ey.
+  - destruct (qmask q) as [b|l] eqn:E.
+    + cbn in Ea. subst. unfold mask_at in Hm. rewrite E in Hm. cbn in Hm.
+      rewrite nth_repeat_lt in Hm by auto. discriminate.
+    + destruct Hw as [_ Hq]. rewrite E in Hq. destruct Hq as (Hl & Hv & _).
+      rewrite nth_canon by lia. unfold mask_at in Hm. rewrite E in Hm. cbn in Hm. rewrite Hm. reflexivity.
+  - rewrite none_masked_at in Hm by auto. discriminate.
+Qed.
+
+(* the property C11 states about an object [q] and its unpickled copy [k] *)
+Definition roundtrip_ok (q k : qube) : Prop :=
+  let c := core q in
+  let c' := core k in
+  qcls c' = qcls c /\ qshape c' = qshape c /\ qnumer c' = qnumer c /\ qdenom c' = qdenom c /\
+  qkind c' = qkind c /\ qunits c' = qunits c /\ qro c' = qro c /\
+  map fst (derivs k) = map fst (derivs q) /\
+  (forall i, i < size (qshape c) -> mask_at c' i = mask_at c i) /\
+  (forall i, i < size (qshape c) -> mask_at c i = false -> nth i (qvals c') [] = nth i (qvals c) []) /\
+  (qscalar c = false -> forall i, i < size (qshape c) -> mask_at c i = true -> nth i (qvals c') [] = qdef c) /\
+  (forall j key d, nth_error (derivs q) j = Some (key, d) ->
+     exists d', nth_error (derivs k) j = Some (key, d') /\
+       qcls d' = qcls d /\ qshape d' = qshape d /\ qnumer d' = qnumer d /\ qdenom d' = qdenom d /\
+       qunits d' = qunits d /\ qro d' = (qro c || qro d) /\
+       forall i, i < size (qshape c) -> mask_at c i = false -> mask_at d i = false ->
+                 nth i (qvals d') [] = nth i (qvals d) []).
+
+Lemma restore_ok q : wf q -> roundtrip_ok q (restore q).
+Proof.
+  intros (Hc & Hsc & Hd). unfold roundtrip_ok, restore. cbn [core derivs].
+  repeat split; try reflexivity.
+  - rewrite map_map. cbn [fst]. reflexivity.
+  - intros i Hi. apply mask_restored; auto.
+  - intros i Hi Hm. apply vals_restored_unmasked; auto.
+  - intros Hs i Hi Hm. apply vals_restored_masked; auto.
+  - intros j key d Hj. exists (restore_d (core q) d). split.
+    { rewrite nth_error_map, Hj. reflexivity. }
+    apply nth_error_In in Hj. rewrite Forall_forall in Hd. destruct (Hd _ Hj) as (Hwd & Hsh & Hlen).
+    cbn [snd] in *. unfold restore_d. destruct (sel_mask (core q)) as [l|] eqn:El.
+    + cbn. repeat split; try reflexivity. intros i Hi Hm _.
+      destruct (sel_mask_LA _ _ Hc El) as (Eq & Hl & _ & _).
+      rewrite nth_canon by lia. unfold mask_at in Hm. rewrite Eq in Hm. cbn in Hm. rewrite Hm. reflexivity.
+    + cbn. repeat split; try reflexivity. intros i Hi _ Hm.
+      apply vals_restored_unmasked; auto. rewrite Hsh. exact Hi.
+Qed.
+
+(* C11_roundtrip_default *)
+Theorem roundtrip_default cd :
+  (forall b, Forall byte_ok b -> bz2d cd (bz2c cd b) = b) ->
+  (forall l, Forall pat_ok l -> fpzd cd (fpzc cd l) = l) ->
+  forall q, wf q -> roundtrip_ok q (setstate cd (getstate cd q)).
+Proof. intros Hb Hf q Hw. rewrite (setget cd Hb Hf q Hw). apply restore_ok; auto. Qed.
+
+(* C11_pure: in the model of the effects of __getstate__ only the cache of the pickled object
+   can change (by construction of [getstate_eff]; the implementation is checked against this
+   by a bit-for-bit snapshot in every case of the check) *)
+Theorem getstate_pure cd (o : pyobj) :
+  py_q (fst (getstate_eff cd o)) = py_q o /\ py_attrs (fst (getstate_eff cd o)) = py_attrs o /\
+  snd (getstate_eff cd o) = getstate cd (py_q o).
+Proof. repeat split. Qed.
+
+Lemma id_codec_ok :
+  (forall b, Forall byte_ok b -> bz2d id_codec (bz2c id_codec b) = b) /\
+  (forall l, Forall pat_ok l -> fpzd id_codec (fpzc id_codec l) = l).
+Proof. split; reflexivity. Qed.
